@@ -751,7 +751,7 @@ func (rw *rewriter) accStmt(target ast.Expr, write bool, at ast.Node) ast.Stmt {
 		w = "true"
 	}
 	return &ast.ExprStmt{X: rw.call("Acc", &ast.UnaryExpr{Op: token.AND, X: target}, ast.NewIdent(w),
-		&ast.BasicLit{Kind: token.STRING, Value: fmt.Sprintf("%q", rw.pos(at))})}
+		&ast.BasicLit{Kind: token.STRING, Value: fmt.Sprintf("%q", exprString(target)+"@"+rw.pos(at))})}
 }
 
 // accessesIn returns access events for the shared variables that expression e
